@@ -488,13 +488,15 @@ Section ConvertTo.
       { intros p' Hin q [<-|Hq].
         - rewrite conflict_sym. rewrite Forall_forall in Hc. apply Hc. exact Hin.
         - apply Hf; [right; exact Hin | exact Hq]. }
-      destruct (IH v1 v1 (p :: W) ((p, conv st x) :: R) C1 (or_introl (conj ltac:(discriminate) eq_refl))
-                   Hne' Hnc Hf1 (fun p' x' Hin => Hfit p' x' (or_intror Hin)))
-        as [u' [v' [Hall [C' [W' [Rr Rm]]]]]].
+      assert (W1 : walked T v1 v1 (p :: W)) by (left; split; [discriminate | reflexivity]).
+      assert (Hfit' : fits m) by (intros p' x' Hin; apply Hfit; right; exact Hin).
+      assert (HR' : forall q a, In (q, a) ((p, conv st x) :: R) -> In q (p :: W) /\ take_path env v1 q = Ok a).
       { intros q a [Hin|Hin].
         - inversion Hin; subst. split; [left; reflexivity | exact R1].
         - destruct (HR q a Hin) as [HqW Hr]. split; [right; exact HqW|].
           apply F1; [|exact Hr]. apply Hf; [left; reflexivity | exact HqW]. }
+      destruct (IH v1 v1 (p :: W) ((p, conv st x) :: R) C1 W1 Hne' Hnc Hf1 Hfit' HR')
+        as [u' [v' [Hall [C' [W' [Rr Rm]]]]]].
       exists u', v'.
       split. { simpl. rewrite assign_one_nonempty by exact Hp. rewrite Ha. exact Hall. }
       assert (Eq : rev (keys ((p, x) :: m)) ++ W = rev (keys m) ++ p :: W).
@@ -538,9 +540,8 @@ Section ConvertTo.
       destruct W' as [[Hw ->]|[Hw Hv]].
       + eapply clean_read_zero; eauto.
       + destruct Hv as [->| ->].
-        * apply clean_empty in C'. rewrite Hw in C'.
-          assert (instantiate (zero T) = new_instance T \/ True) by (right; exact I).
-          (* nothing was assigned: the instantiated zero value *)
+        * (* nothing was assigned: the instantiated zero value *)
+          clear C'.
           destruct T as [| | |mm|uu|ks ee]; simpl instantiate in Hr; simpl zero in Hr;
             try (apply zero_below; assumption).
           -- destruct q as [|g r]; [contradiction|]. simpl in Hr.
